@@ -24,7 +24,7 @@ META = {
 }
 
 C_FILES = ["vm.c", "db_module.c", "contract_module.c", "system_module.c", "state_module.c", "crypto_module.c", "name_module.c", "util.c"]
-FUEL = 16
+FUEL = 8
 
 
 def gen_callbacks(ctx):
@@ -41,7 +41,7 @@ def gen_callbacks(ctx):
     if rc != 0:
         raise RuntimeError("gen_vmguard failed:\n" + out[-2000:])
     txt = open(outp).read()
-    cbs = re.findall(r'^  "([^"]+)";?$', txt.split("Definition callbacks")[1], re.M)
+    cbs = re.findall(r'^  "([^"]+)";?$', txt.split("Definition callbacks")[1].split("Definition translator_mutators")[0], re.M)
     funcs = re.findall(r"^Definition f_(\w+) : stmt", txt, re.M)
     muts = re.findall(r'\(Mut "([^"]+)" (K\w+)\)', txt)
     return cbs, funcs, muts, txt
@@ -72,10 +72,27 @@ def c_unreviewed(ctx):
     return names
 
 
+def unclassified_callees(ctx):
+    txt = ["From Coq Require Import String List Bool.", "From Verif Require Import VmGuard.Reviewed Gen.Callbacks.",
+           "Definition U := Eval vm_compute in (unclassified verb_callees, classification_ok verb_callees translator_mutators translator_restore).",
+           "Print U."]
+    ctx.coq_make(["VmGuard/Reviewed.vo"])
+    rc, out = ctx.coq_eval("unclassified", "\n".join(txt))
+    if rc != 0:
+        return None
+    flat = " ".join(out.split())
+    m = re.search(r"U\s*=\s*\((.*),\s*(true|false)\)\s*:", flat)
+    if not m:
+        return None
+    names = re.findall(r'"([^"]+)"', m.group(1))
+    if m.group(2) == "false" and not names:
+        names = ["<classification disagrees with the translator lists>"]
+    return names
+
+
 def coq_paths(ctx, which):
     """offending (callback, context, mutator) paths computed by the model on the generated term"""
-    flt = {"good": "filter good all_envs",
-           "f13": "filter (fun e => (eQ e || eV e) && negb (good e)) all_envs"}[which]
+    flt = "filter (fun e => eQ e || eV e) all_envs"
     txt = ["From Coq Require Import String List Bool.", "From Verif Require Import VmGuard.Lang VmGuard.Analysis Gen.Callbacks.",
            "Import ListNotations.",
            "From Verif Require Import Gen.CCallbacks.",
@@ -109,8 +126,15 @@ def run(ctx):
     cres = gen_c(ctx, cbs)
     ctx.coq_make(["Gen/CCallbacks.vo", "VmGuard/CSide.vo"])
     # ---- paths
-    bad, out1 = coq_paths(ctx, "good")
-    f13, out2 = coq_paths(ctx, "f13")
+    # one evaluation over every read-only context; split by the amount hypothesis afterwards
+    allp, out1 = coq_paths(ctx, "readonly")
+    out2 = out1
+    if allp is None:
+        bad, f13 = None, None
+    else:
+        isgood = lambda c: c["forkVersion>=5"] or c["amount>0"] or c["amount==0"]
+        bad = [p for p in allp if isgood(p["context"])]
+        f13 = [p for p in allp if not isgood(p["context"])]
     if bad is None:
         ctx.violation("could not evaluate the analysis on the translated callbacks", {"log": out1[-2000:]}, no_input=True)
         bad = []
@@ -121,6 +145,12 @@ def run(ctx):
     elif unrev:
         c_fail.append(("C functions reachable from Lua that are registered or call Go callbacks but are not in the reviewed "
                        "inventory VmGuard/CSide.v (new Lua-registered function, or new call of a Go callback from C)", unrev))
+    uncl = unclassified_callees(ctx)
+    if uncl is None:
+        c_fail.append(("the callee classification could not be evaluated", []))
+    elif uncl:
+        c_fail.append(("verb-named external callees in the reachable Go functions that are not classified in VmGuard/Reviewed.v "
+                       "(or the classification disagrees with the translator's mutator list)", uncl))
     if cres["registered_not_found"]:
         c_fail.append(("functions named in a luaL_Reg table whose definition the scanner did not find", cres["registered_not_found"]))
 
